@@ -134,6 +134,8 @@ def _programs(b, w, prog, sp, tier, square):
               ("phase_transpose", lambda ev, x: w.meth(ev, x, "phase_transpose", rev))]
     if tier == "quick":
         firsts = firsts[:2] if nd <= 3 else []
+    else:
+        firsts = firsts if nd <= 2 else (firsts[:2] if nd == 3 else [])  # the thorough family stays within minutes
     import os
 
     if os.environ.get("VERIF_SELFTEST"):
